@@ -42,6 +42,7 @@ enum
     MOP_SCRIBBLE,           /* caller overwrites pixels of an image it owns */
     MOP_ALIAS,              /* a second image over the pixels of another one (the "pixbuf" idiom: x888 source + a888 mask on the same bits) */
     MOP_BITS_HUGE,          /* an image of 4 GiB or more whose pixels pixman allocates itself */
+    MOP_BITS_YUV,           /* a source image in one of the two YUV formats (yuy2, yv12): can be read, never written */
     MOP_N
 };
 
@@ -70,6 +71,7 @@ typedef struct
     int is_alpha_of;              /* how many machine images currently have it attached (model) */
     int has_alpha;                /* slot of attached alpha map or -1 (model) */
     uint64_t serial;              /* creation serial within the machine */
+    int yuv;                      /* yuy2 / yv12: pixman has no store function for it, so it is never a destination */
     int tile;                     /* storage is a tile of a canvas shared with other machines: row padding is not ours */
 } mslot_t;
 
